@@ -25,7 +25,7 @@ where the end should be, `close` = after the collection), every decoration
 SErr σ` (so every script, `Script.step sc` included).
 
 Obligations: `first_failure_de`, `first_failure_de_independent`,
-`first_failure_ser`, `transcode_first_failure`, `display_contains_cause`,
+`first_failure_de_at_path`, `first_failure_ser`, `transcode_first_failure`, `display_contains_cause`,
 `no_panic_transcode`, `ser_source_has_error`, `transcode_faithful`,
 `valuepath_faithful`, `valuepath_first_failure`,
 `toml_target_error_is_de_error`, `d7_counterexample`.
@@ -71,6 +71,20 @@ theorem first_failure_de_independent {σ₁ σ₂ : Type}
     transcode step₁ dec d s₁ = transcode step₂ dec d s₂ := by
   rw [(first_failure_de step₁ dec d e s₁ s₁' hde h₁).1,
     (first_failure_de step₂ dec d e s₂ s₂' hde h₂).1]
+
+/-- "At any path": put any failing deserializer `hole` — `fail tok` (fails
+immediately), `afail tok` (the access fails instead of handing it out: between
+elements, after a key, where the end should be), `seq [] (some tok)` (fails
+after the collection), or any tree whose own first failure is `e` — at the end
+of any path of element / key / value steps, with nothing failing before it in
+execution order (`clean`; what comes after is arbitrary).  Then under every
+serializer that accepts the ops issued before that point the result is
+`Error::De` of exactly that error, decorated once per level of the path. -/
+theorem first_failure_de_at_path (path : List PathStep) (hole : De) (e : DErr)
+    (hclean : ∀ st ∈ path, st.clean = true) (he : (trace dec hole).2 = some e)
+    (s s' : σ) (hacc : accepts step s (trace dec (plug path hole)).ops = some s') :
+    (transcode step dec (plug path hole) s).1 = .errDe (decN dec path.length e) := by
+  rw [(first_failure_de step dec _ _ s s' (trace_plug dec path hole e hclean he) hacc).1]
 
 /-- A tree has a deserializer failure in its trace exactly when it has a
 failure point anywhere: no planted failure is lost. -/
@@ -336,6 +350,17 @@ example :
           .seqBegin, .elemPre]) :=
   (first_failure_de (Script.step {}) DErr.wrap _ _ {} ⟨9, 0⟩ (by decide) (by decide)).1
 
+/-- `first_failure_de_at_path` instantiated: `{"a": [1, {<fails>: 2}, 3]}` — value
+step, element step (after an error-free element), key step. -/
+example :
+    (transcode (Script.step {}) DErr.wrap
+      (plug [.val [] (.scalar (.str [97])) [] none,
+             .elem [.scalar (.u8 1)] [.scalar (.u8 3)] none,
+             .key [] (.scalar (.u8 2)) [] none] (.fail 3)) {}).1 =
+      .errDe (.wrap (.wrap (.wrap (.own 3)))) :=
+  first_failure_de_at_path (Script.step {}) DErr.wrap _ (.fail 3) (.own 3) (by decide) (by decide)
+    {} ⟨12, 0⟩ (by decide)
+
 /-- Every kind of failure position gives `Error::De` with the own error:
 immediately (top level, element, key, value), between elements, after a key,
 where the end should be, after the collection (outer and nested). -/
@@ -423,6 +448,7 @@ end Examples
 #print axioms transcode_first_failure
 #print axioms first_failure_de
 #print axioms first_failure_de_independent
+#print axioms first_failure_de_at_path
 #print axioms first_failure_ser
 #print axioms display_contains_cause
 #print axioms no_panic_transcode
